@@ -2,8 +2,17 @@
 import faulthandler
 import json
 import os
+import signal
 import sys
 import time
+
+
+class CaseTimeout(BaseException):      # (not an Exception: the checks' own handlers around simulate() must not swallow it)
+    """One case ran longer than the per-case watchdog allows (wall clock: inconclusive, never a verdict)."""
+
+
+def _on_alarm(signum, frame):
+    raise CaseTimeout("case exceeded its wall-clock limit")
 
 
 def main(argv):
@@ -28,8 +37,15 @@ def main(argv):
                 break
             case = mod.make_case(prop, seed, i, tier)
             try:
-                res = mod.run_case(case)
-            except Exception as e:  # harness error: never a verdict
+                # per-case watchdog: a case that does not come back (e.g. a model the harness built wrongly, or a
+                # non-terminating loop in the code under test) costs this case only, not the worker
+                signal.signal(signal.SIGALRM, _on_alarm)
+                signal.setitimer(signal.ITIMER_REAL, float(os.environ.get("VERIF_CASE_LIMIT", "120" if tier == "quick" else "400")))
+                try:
+                    res = mod.run_case(case)
+                finally:
+                    signal.setitimer(signal.ITIMER_REAL, 0)
+            except (Exception, CaseTimeout) as e:  # harness error / watchdog: never a verdict
                 import traceback
                 res = dict(i=i, harness_error=traceback.format_exc()[-1500:], violations=[], counters={}, nontrivial=False,
                            aborted=None, hash="?")
